@@ -357,6 +357,11 @@ pub fn run_prop(def: &PropDef, args: &RunArgs) -> (Part, i32) {
     let nprof = def.profiles.len();
     let strat = (0..nprof, proptest::collection::vec(any::<u32>(), def.tape_len / 3..=def.tape_len));
     let result = runner.run(&strat, |(pi, tape)| {
+        // a run in which the harness watchdog keeps firing is inconclusive already: give up early
+        // instead of waiting out the slack case after case
+        if stats.borrow().watchdog >= 5 {
+            return Err(TestCaseError::reject("harness watchdog fired 5 times"));
+        }
         let sc = gen::gen(&def.profiles[pi], &mut Tape::new(&tape));
         let r = run_case(def, &sc);
         let mut st = stats.borrow_mut();
